@@ -201,6 +201,7 @@ type tunnel struct {
 	Enc, Comp bool
 	VEnc      bool // sudp: visitor leg
 	VComp     bool
+	Limit     string // "" | server | client: generous bandwidth limit (far above the judged light-load traffic)
 	be        *backend
 	tinyMu    sync.Mutex // one tiny request in flight per tunnel
 }
@@ -239,9 +240,17 @@ func startBackend(cs *caseState, tun int) (*backend, error) {
 	if err != nil {
 		return nil, err
 	}
+	b := &backend{cs: cs, tun: tun, Port: conn.LocalAddr().(*net.UDPAddr).Port, froms: map[string]map[int]bool{}}
+	b.serve(conn)
+	return b, nil
+}
+
+func (b *backend) serve(conn *net.UDPConn) {
 	_ = conn.SetReadBuffer(4 << 20)
 	_ = conn.SetWriteBuffer(4 << 20)
-	b := &backend{cs: cs, tun: tun, conn: conn, Port: conn.LocalAddr().(*net.UDPAddr).Port, froms: map[string]map[int]bool{}}
+	b.mu.Lock()
+	b.conn = conn
+	b.mu.Unlock()
 	b.wg.Add(1)
 	go func() {
 		defer b.wg.Done()
@@ -251,13 +260,34 @@ func startBackend(cs *caseState, tun int) (*backend, error) {
 			if err != nil {
 				return
 			}
-			b.handle(append([]byte(nil), buf[:n]...), from)
+			b.handle(conn, append([]byte(nil), buf[:n]...), from)
 		}
 	}()
-	return b, nil
 }
 
-func (b *backend) Close() { b.conn.Close(); b.wg.Wait() }
+// Close stops the backend: its port becomes unreachable (ICMP port unreachable for whoever sends to it).
+func (b *backend) Close() {
+	b.mu.Lock()
+	conn := b.conn
+	b.mu.Unlock()
+	conn.Close()
+	b.wg.Wait()
+}
+
+// Reopen brings the backend back on the same port (the port stays leased to the case meanwhile).
+func (b *backend) Reopen() error {
+	var err error
+	for try := 0; try < 50; try++ {
+		var conn *net.UDPConn
+		conn, err = net.ListenUDP("udp", &net.UDPAddr{IP: net.IPv4(127, 0, 0, 1), Port: b.Port})
+		if err == nil {
+			b.serve(conn)
+			return nil
+		}
+		time.Sleep(20 * time.Millisecond)
+	}
+	return err
+}
 
 func (b *backend) setTiny(id *dgID) {
 	b.mu.Lock()
@@ -265,7 +295,7 @@ func (b *backend) setTiny(id *dgID) {
 	b.mu.Unlock()
 }
 
-func (b *backend) handle(p []byte, from *net.UDPAddr) {
+func (b *backend) handle(conn *net.UDPConn, p []byte, from *net.UDPAddr) {
 	cs := b.cs
 	cs.arrivals.Add(1)
 	run.Count("backend_datagrams", 1)
@@ -328,7 +358,7 @@ func (b *backend) handle(p []byte, from *net.UDPAddr) {
 			cs.repSent[rid]++
 			cs.mu.Unlock()
 			run.Count("replies_sent", 1)
-			_, _ = b.conn.WriteToUDP(rp, from)
+			_, _ = conn.WriteToUDP(rp, from)
 		}
 	}
 	if plan.Delay > 0 {
@@ -674,6 +704,9 @@ func (u *user) exchange(sp exSpec, wait time.Duration, must bool) bool {
 	}
 	if !arrived {
 		key := "light-load-datagram-lost"
+		if u.tun.Limit == "server" && (u.tun.Enc || u.tun.Comp) {
+			key = "light-load-loss-with-server-limit-and-enc-or-comp"
+		}
 		if sp.ArriveKey != "" {
 			key = sp.ArriveKey
 		}
@@ -685,6 +718,9 @@ func (u *user) exchange(sp exSpec, wait time.Duration, must bool) bool {
 		return false
 	}
 	key := "light-load-reply-lost"
+	if u.tun.Limit == "server" && (u.tun.Enc || u.tun.Comp) {
+		key = "light-load-loss-with-server-limit-and-enc-or-comp"
+	}
 	if sp.LossKey != "" {
 		key = sp.LossKey
 	}
@@ -708,11 +744,19 @@ func (u *user) blast(sp exSpec) {
 }
 
 func (t *tunnel) describe() string {
-	if t.Kind == "sudp" {
-		return fmt.Sprintf("sudp proxy enc=%v comp=%v, visitor enc=%v comp=%v", t.Enc, t.Comp, t.VEnc, t.VComp)
+	lim := "no bandwidth limit"
+	if t.Limit != "" {
+		lim = fmt.Sprintf("bandwidthLimit=%s mode=%s", generousLimit, t.Limit)
 	}
-	return fmt.Sprintf("udp proxy enc=%v comp=%v", t.Enc, t.Comp)
+	if t.Kind == "sudp" {
+		return fmt.Sprintf("sudp proxy enc=%v comp=%v %s, visitor enc=%v comp=%v", t.Enc, t.Comp, lim, t.VEnc, t.VComp)
+	}
+	return fmt.Sprintf("udp proxy enc=%v comp=%v %s", t.Enc, t.Comp, lim)
 }
+
+// generousLimit: bandwidth limit of limited tunnels; the judged light-load traffic (at most 16 users x 2 x 9 KiB
+// outstanding) is far below it, so the limiter never delays an exchange noticeably.
+const generousLimit = "4MB"
 
 // quiesce waits until neither backends nor users have seen a new datagram for `calm`.
 func (cs *caseState) quiesce(calm, max time.Duration) {
